@@ -31,7 +31,7 @@ type TaskSpec struct {
 
 type Step struct {
 	Op       string   // START_ACTIVITY | STOP_ACTIVITY | RESET | CONFIGURE
-	Outcomes []string // per task: ok | err-src | err-error | undeliverable | dies | silent
+	Outcomes []string // per task: ok | err-src | err-error | err-impostor (error reply preceded by a success reply from a foreign executor naming this task) | undeliverable | dies | silent
 }
 
 type Case struct {
@@ -137,6 +137,9 @@ func run(c Case) (res vh.Result) {
 			return simworld.Reply{Error: "simulated: task did not reach the expected state", State: cmd.Source}
 		case "err-error":
 			return simworld.Reply{Error: "simulated: task went to ERROR", State: "ERROR"}
+		case "err-impostor":
+			// the task's own (error) reply comes 150 ms after somebody else's executor claimed success in its name
+			return simworld.Reply{Error: "simulated: task did not reach the expected state", State: cmd.Source, Impostor: true, Delay: 150 * time.Millisecond}
 		case "silent":
 			return simworld.Reply{NoReply: true}
 		case "dies":
@@ -483,7 +486,7 @@ func genOutcome(t *rapid.T, label string) string {
 	}
 	// "undeliverable" is not drawn per task: a real master accepts MESSAGE calls (202) and drops what it cannot deliver, which the
 	// core sees as silence; an HTTP-level refusal disconnects the whole framework instead (see DESIGN.md, C02)
-	return rapid.SampledFrom([]string{"ok", "ok", "ok", "ok", "err-src", "err-error"}).Draw(t, label)
+	return rapid.SampledFrom([]string{"ok", "ok", "ok", "ok", "ok", "ok", "err-src", "err-src", "err-error", "err-error", "err-impostor"}).Draw(t, label)
 }
 
 func gen(t *rapid.T) Case {
@@ -575,6 +578,8 @@ func TestFixed(t *testing.T) {
 		vh.Fixed(t, prop, fmt.Sprintf("same-host-critical-and-noncritical-fail-%d", i), Case{Tasks: []TaskSpec{{0, false, "direct", "ok", "ok"}, {0, true, "direct", "ok", "ok"}, {0, false, "basic", "ok", "ok"}, {1, true, "direct", "ok", "ok"}},
 			Steps: []Step{{op, []string{"err-src", "err-error", "err-src", "ok"}}}}, vh.Confirmed(run))
 	}
+	vh.Fixed(t, prop, "foreign-executor-claims-success-for-a-critical-task", Case{Tasks: []TaskSpec{{0, true, "direct", "ok", "ok"}, {1, true, "direct", "ok", "ok"}},
+		Steps: []Step{{"START_ACTIVITY", []string{"err-impostor", "ok"}}}}, vh.Confirmed(run))
 	vh.Fixed(t, prop, "nothing-to-command-walk", Case{CallOnly: true, Tasks: nil, Steps: []Step{{"START_ACTIVITY", []string{"ok"}}, {"STOP_ACTIVITY", []string{"ok"}}, {"RESET", []string{"ok"}}, {"CONFIGURE", []string{"ok"}}}}, vh.Confirmed(run))
 	if !vh.Open("KF-C02-noncritical-undeployable") {
 		vh.Fixed(t, prop, "noncritical-unplaceable", canaryNC(), vh.Confirmed(run))
